@@ -407,6 +407,10 @@ pub struct Workload {
     pub typed: Vec<TypedCall>,
     pub reentry: Option<ReCase>,
     pub gc_every: bool,
+    /// call-stack capacity (None: default 256). Tight values make the frames run_function needs
+    /// the thing that fails.
+    #[serde(default)]
+    pub call_stack: Option<usize>,
 }
 
 fn gen_workload(rng: &mut Rng) -> Workload {
@@ -447,7 +451,10 @@ fn gen_workload(rng: &mut Rng) -> Workload {
     } else {
         None
     };
-    let mut w = Workload { pad: *rng.pick(&[0usize, 0, 1, 5, 40, 150]), depth: rng.usize(7), typed, reentry, gc_every: rng.chance(1, 2) };
+    let depth = rng.usize(7);
+    // with a re-entering host function: sometimes just enough / just not enough frames for it
+    let call_stack = if reentry.is_some() && rng.chance(1, 5) { Some(depth + 1 + rng.usize(5)) } else { None };
+    let mut w = Workload { pad: *rng.pick(&[0usize, 0, 1, 5, 40, 150]), depth, typed, reentry, gc_every: rng.chance(1, 2), call_stack };
     // arity of fixed-arity callees must match what was generated after filtering
     if let Some(rc) = &mut w.reentry {
         let want = match rc.callee {
@@ -647,7 +654,10 @@ fn run_workload(w: &Workload) -> (Option<RunOut>, Vec<(Json, String)>) {
         Compiled::Panic(_) => return (None, v),
     };
     let spins = matches!(w.reentry.as_ref().map(|r| &r.callee), Some(Callee::Spins));
-    let knobs = Knobs { budget: if spins { 3000 } else { 200_000 }, ..Default::default() };
+    let mut knobs = Knobs { budget: if spins { 3000 } else { 200_000 }, ..Default::default() };
+    if let Some(cs) = w.call_stack {
+        knobs.call_stack = cs;
+    }
     let cfg = CtlConfig { gc: if w.gc_every { GcPlan::Every } else { GcPlan::Natural }, quarantine: w.gc_every, ..Default::default() };
     let ctl = VmCtl::new(cfg);
     ctl.install();
@@ -674,6 +684,25 @@ fn run_workload(w: &Workload) -> (Option<RunOut>, Vec<(Json, String)>) {
     }
     if let Some(pn) = &out.panic {
         v.push((json!({"inv": "panic", "site": panic_site(pn)}), format!("panic: {} at {}", pn.msg, panic_site(pn))));
+        return (Some(out), v);
+    }
+    // ---- a tight call stack: CallStackOverflow is a legitimate ending wherever it strikes; what is
+    // judged then is only that every run_function that failed handed the stacks back
+    let overflow_swallowed = out
+        .host_log
+        .iter()
+        .any(|c| c.name.ends_with(":after") && matches!(&c.args[2], Obs::Str(s) if s.contains("CallStackOverflow")));
+    if w.call_stack.is_some() && (innermost(&out.result) == "CallStackOverflow" || overflow_swallowed) {
+        if let Some(rc) = &w.reentry {
+            let callee_kind = format!("{:?}", rc.callee).split('(').next().unwrap_or("").to_string();
+            for a in out.host_log.iter().filter(|c| c.name.ends_with(":after")) {
+                let failed = matches!(&a.args[2], Obs::Str(s) if s.starts_with("Err:"));
+                if failed && (a.args[0] != Obs::Int(0) || a.args[1] != Obs::Int(0)) {
+                    ctx_note_failed_imbalance(&mut v, &callee_kind, a);
+                    break;
+                }
+            }
+        }
         return (Some(out), v);
     }
     // ---- oracle: typed calls in order
